@@ -13,17 +13,19 @@ namespace Pymodbus.Props.C12
 open Pymodbus Pymodbus.Server Pymodbus.Framer
 
 /-- whatever bytes arrive, on every front-end, no exception escapes the entry point -/
-theorem no_exception_escapes (cfg : Cfg) (conn : Conn) (ctx : Units) (chunk : Bytes) :
+theorem no_exception_escapes (cfg : Cfg) (conn : Conn) (ctx : World) (chunk : Bytes) :
     (connStep cfg conn ctx chunk).2.2.2 = none := by
   unfold connStep
   split
   · rfl
-  · simp only []
-    split
+  · split
     · rfl
-    · cases cfg.frontend <;> rfl
+    · simp only []
+      split
+      · rfl
+      · cases cfg.frontend <;> rfl
 
-theorem serve_no_exception (cfg : Cfg) (conn : Conn) (ctx : Units) (chunks : List Bytes) :
+theorem serve_no_exception (cfg : Cfg) (conn : Conn) (ctx : World) (chunks : List Bytes) :
     ∀ e ∈ (serve cfg conn ctx chunks).2.2.2, e = none := by
   induction chunks generalizing conn ctx with
   | nil => intro e he; simp [serve] at he
@@ -35,7 +37,7 @@ theorem serve_no_exception (cfg : Cfg) (conn : Conn) (ctx : Units) (chunks : Lis
     · exact ih _ _ e he
 
 /-- the contexts change only by the callback applied to delivered requests: no delivery, no change -/
-theorem store_unchanged_without_delivery (cfg : Cfg) (ctx : Units) (evs : List (Ev Req))
+theorem store_unchanged_without_delivery (cfg : Cfg) (ctx : World) (evs : List (Ev Req))
     (h : ∀ e ∈ evs, ∀ r u t p, e ≠ .deliver r u t p) : (handleEvents cfg ctx evs).1 = ctx := by
   cases evs with
   | nil => rfl
@@ -51,21 +53,23 @@ theorem rejected_request_changes_nothing (s : SlaveCtx) (r : Req)
   C05.exception_no_change s r he
 
 /-- a connection that was closed is inert -/
-theorem stopped_connection_inert (cfg : Cfg) (conn : Conn) (ctx : Units) (chunk : Bytes) (h : conn.running = false) :
+theorem stopped_connection_inert (cfg : Cfg) (conn : Conn) (ctx : World) (chunk : Bytes) (h : conn.running = false) :
     connStep cfg conn ctx chunk = (conn, ctx, [], none) := by
   unfold connStep; simp [h]
 
 /-- the worst a connection does on bytes it cannot decode: close itself (TCP) or forget its buffer -/
-theorem offending_data_closes_or_resets (cfg : Cfg) (conn : Conn) (ctx : Units) (chunk : Bytes) :
+theorem offending_data_closes_or_resets (cfg : Cfg) (conn : Conn) (ctx : World) (chunk : Bytes) :
     (connStep cfg conn ctx chunk).1.running = conn.running ∨
     ((connStep cfg conn ctx chunk).1.running = false ∧ (connStep cfg conn ctx chunk).1.buf = []) := by
   unfold connStep
   split
   · left; rfl
-  · simp only []
-    split
+  · split
     · left; rfl
-    · cases cfg.frontend <;> first | (right; exact ⟨rfl, rfl⟩) | (left; simp_all)
+    · simp only []
+      split
+      · left; rfl
+      · cases cfg.frontend <;> first | (right; exact ⟨rfl, rfl⟩) | (left; simp_all)
 
 theorem decServer_eq : decServer = (fun pdu => (Impl.decReq pdu).map some) := by
   funext pdu
@@ -73,45 +77,53 @@ theorem decServer_eq : decServer = (fun pdu => (Impl.decReq pdu).map some) := by
   cases Impl.decReq pdu <;> rfl
 
 /-- the contexts after executing a request on the unit `uid` resolves to -/
-def afterExec (ctx : Units) (uid : Nat) (s' : SlaveCtx) : Units :=
-  let key : Int := if ctx.single then 0 else uid
-  { ctx with slaves := ServerCtx.insert ctx.slaves key s' }
+def afterExec (w : World) (uid : Nat) (s' : SlaveCtx) : World :=
+  let key : Int := if w.units.single then 0 else uid
+  { w with units := { w.units with slaves := ServerCtx.insert w.units.slaves key s' } }
 
 /-- after ANY history (the contexts `ctx` are arbitrary), a well-formed request on a fresh connection is answered
     with exactly one frame: the framing, with the request's ids, of what executing the request on the addressed
     unit's current tables yields (TCP framing; every front-end) -/
-theorem fresh_connection_probe_tcp (cfg : Cfg) (hf : cfg.framer = .tcp) (ctx : Units)
-    (r : Req) (hp : C01.Plain r) (hw : PduSpec.WFReq r) (hd : C01.DiagOneWord r) (tid pid uid : Nat)
-    (hu : validUnit (acceptedUnits cfg ctx) ctx.single uid = true)
-    (s : SlaveCtx) (hs : ctx.getItem uid = .ok s) (hb : C10.bcast cfg uid = false)
+theorem fresh_connection_probe_tcp (cfg : Cfg) (hf : cfg.framer = .tcp) (w : World)
+    (hl : (isTwisted cfg.frontend && w.ctl.listenOnly) = false)
+    (r : Req) (hp : C01.Plain r) (hw : PduSpec.WFReq r) (hd : C01.DiagOneWord r)
+    (hda : isDataAccess (PduSpec.normReq r) = true) (tid pid uid : Nat)
+    (hu : validUnit (acceptedUnits cfg w.units) w.units.single uid = true)
+    (s : SlaveCtx) (hs : w.units.getItem uid = .ok s) (hb : C10.bcast cfg uid = false)
     (f : Bytes) (hfr : frameResp cfg (Impl.serverExecute s (PduSpec.normReq r)).2 uid tid pid = .ok f) :
     ∃ data, Impl.encReq r = .ok data ∧
-      (connStep cfg { buf := [] } ctx (tcpFrame tid pid uid r.fc data)).2.2 = ([f], none) ∧
-      (connStep cfg { buf := [] } ctx (tcpFrame tid pid uid r.fc data)).1 = { buf := [], running := true } := by
-  obtain ⟨data, he, hfeed⟩ := C03.request_roundtrip_tcp r hp hw hd tid pid uid (acceptedUnits cfg ctx) ctx.single hu
+      (connStep cfg { buf := [] } w (tcpFrame tid pid uid r.fc data)).2.2 = ([f], none) ∧
+      (connStep cfg { buf := [] } w (tcpFrame tid pid uid r.fc data)).1 = { buf := [], running := true } := by
+  obtain ⟨data, he, hfeed⟩ := C03.request_roundtrip_tcp r hp hw hd tid pid uid (acceptedUnits cfg w.units) w.units.single hu
   refine ⟨data, he, ?_⟩
-  have hcb : callback cfg ctx (PduSpec.normReq r) uid =
-      (afterExec ctx uid (Impl.serverExecute s (PduSpec.normReq r)).1, some (Impl.serverExecute s (PduSpec.normReq r)).2) := by
+  have hex := C09.execAny_dataAccess w.ctl s (PduSpec.normReq r) hda
+  have hcb : callback cfg w (PduSpec.normReq r) uid =
+      (afterExec w uid (Impl.serverExecute s (PduSpec.normReq r)).1, some (Impl.serverExecute s (PduSpec.normReq r)).2) := by
     unfold callback
     have hb' : (cfg.broadcast && hasBroadcast cfg.frontend && uid == 0) = false := hb
     rw [if_neg (by simp [hb'])]
-    simp only [hs, afterExec]
+    simp only [hs, hex, afterExec]
+  have hsr : shouldRespond (Impl.serverExecute s (PduSpec.normReq r)).2 = true :=
+    C09.impl_should_respond s (PduSpec.normReq r) ((C09.isDataAccess_iff _).1 hda)
   have hstep : stepFor .tcp = tcpStep := by
     funext buf; rfl
-  have hh : handleEvents cfg ctx [.deliver (PduSpec.normReq r) uid tid pid] =
-      (afterExec ctx uid (Impl.serverExecute s (PduSpec.normReq r)).1, [f], none) := by
-    simp only [handleEvents, hcb, hfr]
+  have hh : handleEvents cfg w [.deliver (PduSpec.normReq r) uid tid pid] =
+      (countMessage cfg (afterExec w uid (Impl.serverExecute s (PduSpec.normReq r)).1), [f], none) := by
+    rw [C09.handle_cons_ok [] hcb hsr hfr]
+    simp [handleEvents]
   unfold connStep
-  simp only [Bool.not_true, Bool.false_eq_true, if_false, hf, reduceCtorEq, hstep, decServer_eq, hfeed, hh]
+  simp only [Bool.not_true, Bool.false_eq_true, if_false, hl, hf, reduceCtorEq, hstep, decServer_eq, hfeed, hh]
   constructor
   · trivial
   · simp
 
-example : (connStep ⟨.tcp, .syncTcp, false, false⟩ { buf := [] } (ServerCtx.mkSingle ⟨[.seq ⟨0, [1]⟩], 0, 0, 0, 0, true⟩)
+def ctl0 : Control := { counters := List.replicate 9 0, diagReg := List.replicate 16 false, plus := List.replicate 54 0, ident := [] }
+
+example : (connStep ⟨.tcp, .syncTcp, false, false⟩ { buf := [] } ⟨ServerCtx.mkSingle ⟨[.seq ⟨0, [1]⟩], 0, 0, 0, 0, true⟩, ctl0⟩
     [0, 1, 0, 0, 0, 3, 1, 16, 0]).1.running = false := by rfl
 
 -- the probe theorem's conclusion on a concrete instance (read holding register 0 of a one-register unit holding 7)
-example : (connStep ⟨.tcp, .aioTcp, false, false⟩ { buf := [] } (ServerCtx.mkSingle ⟨[.seq ⟨0, [7]⟩], 0, 0, 0, 0, true⟩)
+example : (connStep ⟨.tcp, .aioTcp, false, false⟩ { buf := [] } ⟨ServerCtx.mkSingle ⟨[.seq ⟨0, [7]⟩], 0, 0, 0, 0, true⟩, ctl0⟩
     [0, 1, 0, 0, 0, 6, 1, 3, 0, 0, 0, 1]).2.2 = ([[0, 1, 0, 0, 0, 5, 1, 3, 2, 0, 7]], none) := by rfl
 
 end Pymodbus.Props.C12
